@@ -93,6 +93,12 @@ def random_domain_op(rng, sim, maxlen=40):
         l = Fraction(rng.randint(0, 6), 16)
         r = Fraction(rng.randint(9, 16), 16)
         return {"k": k, "left": R(l), "right": R(r), "lr": True, "rr": True}
+    if rng.random() < 0.35:
+        # one bound as a ratio of the span, the other as a position (bounds chosen off the samples: no floating-point ties)
+        span = x[-1] - x[0]
+        if rng.random() < 0.5:
+            return {"k": k, "left": R(Fraction(rng.choice([1, 3, 5]), 32)), "right": R(x[0] + span * Fraction(rng.choice([21, 25, 29]), 32)), "lr": True, "rr": False}
+        return {"k": k, "left": R(x[0] + span * Fraction(rng.choice([1, 3, 5]), 32)), "right": R(Fraction(rng.choice([21, 25, 29]), 32)), "lr": False, "rr": True}
     d = Fraction(rng.choice([0, 0, 1]), 8) * (x[1] - x[0])
     return {"k": k, "left": R(x[i] + d), "right": R(x[j] + (x[j] - x[j - 1]) * Fraction(rng.choice([0, 0, -1]), 8)), "lr": False, "rr": False}
 
